@@ -135,18 +135,19 @@ func ReadNDJSON(path string) ([]map[string]any, error) {
 // ---------------------------------------------------------------- TLC
 
 type TLCOpts struct {
-	Module   string            // e.g. "Decls" (file spec/Decls.tla)
-	Config   string            // e.g. "Decls_quick.cfg"
-	Env      map[string]string // extra environment (IOEnv.X in the spec)
-	Workers  int               // default 1
-	Timeout  time.Duration     // default 10 min
-	Simulate string            // e.g. "num=200" (adds -simulate), with Depth
-	Depth    int
-	Seed     int64
-	Coverage bool
-	Deadlock bool // true: check deadlock (default off: -deadlock flag given)
-	ExtraArg []string
-	HeapGB   int
+	Module     string            // e.g. "Decls" (file spec/Decls.tla)
+	Config     string            // e.g. "Decls_quick.cfg"
+	ConfigText string            // when set, the configuration is written from this text instead of Config
+	Env        map[string]string // extra environment (IOEnv.X in the spec)
+	Workers    int               // default 1
+	Timeout    time.Duration     // default 10 min
+	Simulate   string            // e.g. "num=200" (adds -simulate), with Depth
+	Depth      int
+	Seed       int64
+	Coverage   bool
+	Deadlock   bool // true: check deadlock (default off: -deadlock flag given)
+	ExtraArg   []string
+	HeapGB     int
 }
 
 type TLCResult struct {
@@ -187,6 +188,12 @@ func (c *Ctx) RunTLC(o TLCOpts) (*TLCResult, error) {
 			continue
 		}
 		if err := os.WriteFile(filepath.Join(dir, filepath.Base(s)), b, 0o644); err != nil {
+			return nil, err
+		}
+	}
+	if o.ConfigText != "" {
+		o.Config = o.Module + "_gen.cfg"
+		if err := os.WriteFile(filepath.Join(dir, o.Config), []byte(o.ConfigText), 0o644); err != nil {
 			return nil, err
 		}
 	}
@@ -329,20 +336,20 @@ type Violation struct {
 }
 
 type Result struct {
-	Level         string // evidence level
-	Violations    []Violation
-	Drift         []string
-	States        int64
-	Transitions   int64
-	TracesVsImpl  int
-	Evaluations   int
-	Nontrivial    int
-	Rule          string
-	Samples       []any
-	Exhaustive    bool
-	Assumptions   []string
-	Extra         map[string]any
-	ReplayReport  string // for --replay runs
+	Level        string // evidence level
+	Violations   []Violation
+	Drift        []string
+	States       int64
+	Transitions  int64
+	TracesVsImpl int
+	Evaluations  int
+	Nontrivial   int
+	Rule         string
+	Samples      []any
+	Exhaustive   bool
+	Assumptions  []string
+	Extra        map[string]any
+	ReplayReport string // for --replay runs
 }
 
 func (r *Result) AddTLC(t *TLCResult) {
